@@ -21,7 +21,9 @@ Inductive event :=
 | EvCallT (f this : value) (args : list value)           (* call of f with an explicit receiver *)
 | EvSet (o : value) (k : string) (v : value)             (* property write o.k = v *)
 | EvWrite (x : string) (v : value)                       (* assignment to a user variable *)
-| EvStr (v : value).                                     (* implicit coercion of a template substitution to a string *)
+| EvStr (v : value)                                      (* implicit coercion of a template substitution to a string *)
+| EvGetV (o k : value)                                   (* property read o[k] with a computed key *)
+| EvSetV (o k v : value).                                (* property write o[k] = v with a computed key *)
 Definition hist := list event.
 Inductive resp := RRet (v : value) | RThr (v : value).
 
@@ -53,7 +55,10 @@ Inductive expr :=
 | Tpl2 (q0 : string) (e1 : expr) (q1 : string) (e2 : expr) (q2 : string)  (* `q0${e1}q1${e2}q2` *)
 | OptMCall0 (o : expr) (m : string)              (* o?.m() *)
 | OptMCall1 (o : expr) (m : string) (a : expr)   (* o?.m(a) *)
-| Guard (n : nat) (e : expr) (body : expr).      (* (t_n = e, t_n == null ? undefined : body) *)
+| Guard (n : nat) (e : expr) (body : expr)       (* (t_n = e, t_n == null ? undefined : body) *)
+| AddAsgC (o k e : expr)                         (* o[k] += e: a computed key *)
+| GetC (o k : expr)                              (* o[k], as the rewriter reads the old value *)
+| AsgC (o k e : expr).                           (* o[k] = e, as the rewriter builds it *)
 
 Definition tenv := nat -> value.
 Definition upd (t : tenv) (n : nat) (v : value) : tenv := fun m => if Nat.eqb m n then v else t m.
@@ -188,6 +193,18 @@ Fixpoint eval (e : expr) (s : st) : out * st :=
       bind (eval e1 s) (fun v s1 =>
         let s1' := (fst s1, upd (snd s1) n v) in
         if nullish v then (Ret VUndef, s1') else eval body s1')
+  | AddAsgC o k e1 =>
+      (* the object, then the key, then the old value is read, then the right-hand side, then the sum is stored
+         (the coercion of the key to a property key is part of the read and of the write) *)
+      bind (eval o s) (fun vo s1 => bind (eval k s1) (fun vk s2 => bind (fire (EvGetV vo vk) s2) (fun v1 s3 =>
+      bind (eval e1 s3) (fun v2 s4 => bind (do_add v1 v2 s4) (fun r s5 =>
+      bind (fire (EvSetV vo vk r) s5) (fun _ s6 => (Ret r, s6)))))))
+  | GetC o k =>
+      bind (eval o s) (fun vo s1 => bind (eval k s1) (fun vk s2 => fire (EvGetV vo vk) s2))
+  | AsgC o k e1 =>
+      (* the target (object and key) is evaluated before the right-hand side *)
+      bind (eval o s) (fun vo s1 => bind (eval k s1) (fun vk s2 => bind (eval e1 s2) (fun r s3 =>
+      bind (fire (EvSetV vo vk r) s3) (fun _ s4 => (Ret r, s4)))))
   end.
 
 (* ---- the rewriter (binary + only), children first, counter threaded ---- *)
@@ -289,6 +306,16 @@ Definition rw_addasg_m (o' : expr) (k : string) (e' : expr) (c2 : nat) : expr * 
   let '(sum, c4) := rw_add (Get ob k) (group_sum e') c3 in
   (wrap bo (AsgM ob k sum), c4).
 
+(** The same with a computed key, [o[k] += e]: the key is captured unless it is an identifier or a literal, and
+    when the key is captured the object is captured first, whatever it is (a literal excepted): JavaScript reads
+    the object before it evaluates the key (finding 17m). *)
+Definition rw_addasg_c (o' k' e' : expr) (c3 : nat) : expr * nat :=
+  let hk := negb (is_triv k') in
+  let '(ob, bo, c4) := if is_lit o' || (is_triv o' && negb hk) then (o', [], c3) else (Tmp c3, [(c3, o')], S c3) in
+  let '(kb, bk, c5) := if hk then (Tmp c4, [(c4, k')], S c4) else (k', [], c4) in
+  let '(sum, c6) := rw_add (GetC ob kb) (group_sum e') c5 in
+  (wrap (bo ++ bk) (AsgC ob kb sum), c6).
+
 (** [to_dd_tpl_expr]: every substitution is captured ([IdentMode::Replace]: identifiers too) unless it is a
     literal or a sum left in place (which is not passed to the hook); the hook is called on the template itself. *)
 Definition rw_tpl1 (q0 : string) (e' : expr) (q1 : string) (c1 : nat) : expr * nat :=
@@ -358,6 +385,11 @@ Fixpoint rw (e : expr) (c : nat) : expr * nat :=
            let '(body, c3) := rw_mcall (Tmp c) m a' c2 in
            (Guard c o' body, c3)
       else let '(o', c1) := rw o c in let '(a', c2) := rw a c1 in (OptMCall1 o' m a', c2)
+  | AddAsgC o k e1 =>
+      let '(o', c1) := rw o c in
+      let '(k', c2) := rw k c1 in
+      let '(e', c3) := rw e1 c2 in
+      if plus_on then rw_addasg_c o' k' e' c3 else (AddAsgC o' k' e', c3)
   | _ => (e, c)
   end.
 
@@ -372,6 +404,7 @@ Fixpoint rw_root (e : expr) : expr :=
   | Add l r => if plus_on then fst (rw e 0) else Add (rw_root l) (rw_root r)
   | AddAsgV x e1 => if plus_on then fst (rw e 0) else AddAsgV x (rw_root e1)
   | AddAsgM o k e1 => if plus_on then fst (rw e 0) else AddAsgM (rw_root o) k (rw_root e1)
+  | AddAsgC o k e1 => if plus_on then fst (rw e 0) else AddAsgC (rw_root o) (rw_root k) (rw_root e1)
   | _ => fst (rw e 0)
   end.
 
@@ -392,6 +425,7 @@ Fixpoint src (e : expr) : Prop :=
   | Tpl2 _ e1 _ e2 _ => src e1 /\ src e2
   | OptMCall0 o _ => src o
   | OptMCall1 o _ a => src o /\ src a
+  | AddAsgC o k e1 => src o /\ src k /\ src e1
   | _ => False
   end.
 
@@ -421,6 +455,8 @@ Fixpoint temps_in (lo hi : nat) (e : expr) : Prop :=
   | OptMCall0 o _ => temps_in lo hi o
   | OptMCall1 o _ a => temps_in lo hi o /\ temps_in lo hi a
   | Guard n e1 b => lo <= n < hi /\ temps_in lo hi e1 /\ temps_in lo hi b
+  | AddAsgC o k e1 | AsgC o k e1 => temps_in lo hi o /\ temps_in lo hi k /\ temps_in lo hi e1
+  | GetC o k => temps_in lo hi o /\ temps_in lo hi k
   end.
 
 Definition agree_below (lo : nat) (t t' : tenv) : Prop := forall n, n < lo -> t n = t' n.
